@@ -91,7 +91,8 @@ func (x XattrMeta) DeleteAttributes(bucket, object string) error {
 
 // ListAttributes lists all attributes for an object in a bucket.
 func (x XattrMeta) ListAttributes(bucket, object string) ([]string, error) {
-	attrs, err := xattr.List(filepath.Join(bucket, object))
+	path := filepath.Join(bucket, object)
+	attrs, err := listRetry(func() ([]string, error) { return xattr.List(path) })
 	if err != nil {
 		return nil, err
 	}
@@ -107,7 +108,7 @@ func (x XattrMeta) ListAttributes(bucket, object string) ([]string, error) {
 
 // ListAttributesFile lists all attributes of the open file f.
 func (x XattrMeta) ListAttributesFile(f *os.File) ([]string, error) {
-	attrs, err := xattr.FList(f)
+	attrs, err := listRetry(func() ([]string, error) { return xattr.FList(f) })
 	if err != nil {
 		return nil, err
 	}
@@ -119,6 +120,21 @@ func (x XattrMeta) ListAttributesFile(f *os.File) ([]string, error) {
 		attributes = append(attributes, strings.TrimPrefix(attr, xattrPrefix))
 	}
 	return attributes, nil
+}
+
+// listRetry repeats an attribute listing that failed with ERANGE: the list
+// is read in two steps (its size, then its content), and an attribute added
+// to the file in between by a concurrent request makes the second step fail.
+func listRetry(list func() ([]string, error)) ([]string, error) {
+	var attrs []string
+	var err error
+	for i := 0; i < 8; i++ {
+		attrs, err = list()
+		if !errors.Is(err, syscall.ERANGE) {
+			break
+		}
+	}
+	return attrs, err
 }
 
 func isUserAttr(attr string) bool {
